@@ -157,7 +157,7 @@ Proof.
     destruct (type_of b x) as [[| | |]|]; try discriminate;
       (destruct (object_locked cur b x); [discriminate|apply G]).
   - destruct (type_of b x) as [[| | |]|]; try discriminate;
-      (destruct (object_status b x cur =? st_tombstoned); [discriminate|]);
+      (destruct ((object_status b x cur =? st_tombstoned) || (in_garbage b x =? st_tombstoned)); [discriminate|]);
       intros E; inversion E; subst; repeat split; auto;
       unfold dtyped, dtyp; simpl; rewrite P, R, T, L, K; reflexivity.
 Qed.
